@@ -652,9 +652,16 @@ func finish(m *Merged, vdir string, wall time.Duration) int {
 		"observed_kinds":      m.Sets,
 		"workers":             Workers(),
 	}
-	if ev, ok := m.Obs["evaluations"]; ok && ev > 0 {
-		cov["evaluations"] = ev
-		cov["cases"] = m.Cases
+	if len(p.EvalObs) > 0 {
+		var ev int64
+		for _, k := range p.EvalObs {
+			ev += m.Obs[k]
+		}
+		if ev > 0 {
+			cov["evaluations"] = ev
+			cov["cases"] = m.Cases
+			cov["evaluations_counted_as"] = p.EvalObs
+		}
 	}
 	if len(m.Samples) == 0 {
 		cov["samples"] = []interface{}{}
